@@ -550,14 +550,26 @@ func checkFieldsTable(c *fw.Ctx) {
 		// one obligation per (constructor, routine holding the byte-only check)
 		bad := map[string]string{}
 		seen := map[string]bool{}
+		// the same hard comparison can be reached through several call chains (the hash-mismatch
+		// path re-parses the redacted event, which runs all checks again for that other object):
+		// it has been evaluated for this event as soon as one of its chains precedes the refusal
+		classes := map[*ssa.If][]limitSite{}
+		for _, h := range hs {
+			classes[h.iff] = append(classes[h.iff], h)
+		}
 		for _, l := range ls {
-			what := "?"
-			if cc, ok := l.anchor().(ssa.CallInstruction); ok {
-				what = strings.TrimPrefix(fw.CalleeName(cc), "gmsl.")
-			}
+			// the routine that holds the byte-only check names the obligation
+			what := strings.TrimPrefix(fw.FuncName(l.iff.Parent()), "gmsl.")
 			seen[what] = true
-			for _, h := range hs {
-				if !hardBeforeLenient(h, l) {
+			for _, members := range classes {
+				any := false
+				for _, h := range members {
+					if hardBeforeLenient(h, l) {
+						any = true
+					}
+				}
+				h := members[0]
+				if !any {
 					bad[what] = fmt.Sprintf("the persistable byte-length check at %s (reached through %s) can run before the non-persistable %s check at %s: an event that only exceeds the byte limit there but breaks a hard limit elsewhere is reported persistable", c.P.Pos(fw.InstrPos(l.iff)), what, h.kind, c.P.Pos(fw.InstrPos(h.iff)))
 				}
 			}
